@@ -1,6 +1,7 @@
 import Driver.Tiny
 import Driver.Policy
 import Driver.Cache
+import Driver.Keys
 /-! `smdriver <component>`: replays a line-protocol trace from stdin through the model. -/
 open Driver
 
@@ -37,6 +38,16 @@ partial def loopCache (h : IO.FS.Stream) (st : CacheSt) (tl : Tally) : IO Tally 
     let (st, tl) := stepCache st tl act ans
     loopCache h st tl
 
+partial def loopKeys (h : IO.FS.Stream) (tl : Tally) : IO Tally := do
+  let line ← h.getLine
+  if line.isEmpty then return tl
+  let line := line.trimAscii.toString
+  if line.isEmpty || line.startsWith "#" then loopKeys h tl
+  else
+    let tl := { tl with lines := tl.lines + 1 }
+    let (act, ans) := splitBar line
+    loopKeys h (stepKeys tl act ans)
+
 def main (args : List String) : IO UInt32 := do
   let stdin ← IO.getStdin
   match args with
@@ -46,6 +57,10 @@ def main (args : List String) : IO UInt32 := do
     return (if tl.diverge + tl.monitorFail + tl.guardFail + tl.bad == 0 then 0 else 1)
   | ["policy"] =>
     let tl ← loopPolicy stdin {} {} none
+    tl.report
+    return (if tl.diverge + tl.monitorFail + tl.guardFail + tl.bad == 0 then 0 else 1)
+  | ["keys"] =>
+    let tl ← loopKeys stdin {}
     tl.report
     return (if tl.diverge + tl.monitorFail + tl.guardFail + tl.bad == 0 then 0 else 1)
   | ["cache"] =>
